@@ -266,36 +266,11 @@ pub struct Found2 {
     pub violation: Violation,
 }
 
-/// C18 sweep. `exhaust_len`: all scripts up to this length are enumerated.
+/// C18 sweep. `exhaust_len`: all scripts up to this length are enumerated. Work is split over
+/// threads by script / sample index; results are merged order-independently.
 pub fn sweep_c18(seed: u64, exhaust_len: usize, sampled: u64) -> CompOutcome {
-    let mut stats = Stats::default();
-    let mut found = vec![];
-    let mut rng = ChaCha8Rng::seed_from_u64(desc::derive_seed(seed, "C18", 0));
-    let draws = all_draws_for_grid(&mut rng);
-    let mut idx = 0u64;
-    let mut distinct = std::collections::HashSet::new();
-    let mut run_case = |c: SourceCase, stats: &mut Stats, found: &mut Vec<Found2>, idx: &mut u64| {
-        let (out, v) = eval_source_case(&c);
-        stats.evaluations += 1;
-        *idx += 1;
-        let short = matches!(&c.entropy, Entropy::Bytes(b) if b.len() < 8 * c.draws.len());
-        if short {
-            stats.bump("fault.short_read.script_shorter_than_draws_need");
-            distinct.insert(desc::digest(format!("{:?}{:?}", c, out).as_bytes()));
-        }
-        if matches!(&c.entropy, Entropy::Bytes(b) if b.is_empty()) {
-            stats.bump("fault.exhausted.empty_script");
-        }
-        if stats.samples.len() < 3 && *idx % 997 == 3 {
-            stats.samples.push(json!({"case": c.to_json(), "results": out}));
-        }
-        if let Some(v) = v {
-            if found.len() < 20 {
-                found.push(Found2 { index: *idx, case: c.to_json(), violation: v });
-            }
-        }
-    };
-    // exhaustive part: every script of length <= exhaust_len x every single draw
+    let mut rng0 = ChaCha8Rng::seed_from_u64(desc::derive_seed(seed, "C18", 0));
+    let draws = all_draws_for_grid(&mut rng0);
     let mut scripts: Vec<Vec<u8>> = vec![vec![]];
     if exhaust_len >= 1 {
         for a in 0..=255u8 {
@@ -309,39 +284,86 @@ pub fn sweep_c18(seed: u64, exhaust_len: usize, sampled: u64) -> CompOutcome {
             }
         }
     }
-    for s in &scripts {
-        for d in &draws {
-            // large gen_bytes on 65k scripts is wasteful; keep them for the short ones
-            if s.len() == 2 && matches!(d, Draw::Bytes(n) if *n > 16) {
-                continue;
-            }
-            run_case(SourceCase { entropy: Entropy::Bytes(s.clone()), draws: vec![d.clone()] }, &mut stats, &mut found, &mut idx);
+    let nt = crate::engine::n_threads() as u64;
+    let parts: Vec<(Stats, Vec<Found2>)> = std::thread::scope(|sc| {
+        let mut hs = vec![];
+        for t in 0..nt {
+            let scripts = &scripts;
+            let draws = &draws;
+            hs.push(sc.spawn(move || {
+                let mut stats = Stats::default();
+                let mut found: Vec<Found2> = vec![];
+                let mut run_case = |c: SourceCase, idx: u64, stats: &mut Stats, found: &mut Vec<Found2>| {
+                    let (out, v) = eval_source_case(&c);
+                    stats.evaluations += 1;
+                    let short = matches!(&c.entropy, Entropy::Bytes(b) if b.len() < 8 * c.draws.len());
+                    if short {
+                        stats.bump("fault.short_read.script_shorter_than_draws_need");
+                        stats.nontrivial.insert(desc::digest(format!("{:?}{:?}", c, out).as_bytes()));
+                    }
+                    if matches!(&c.entropy, Entropy::Bytes(b) if b.is_empty()) {
+                        stats.bump("fault.exhausted.empty_script");
+                    }
+                    if stats.samples.len() < 1 && idx % 997 == 3 {
+                        stats.samples.push(json!({"case_index": idx, "case": c.to_json(), "results": out}));
+                    }
+                    if let Some(v) = v {
+                        if found.len() < 20 {
+                            found.push(Found2 { index: idx, case: c.to_json(), violation: v });
+                        }
+                    }
+                };
+                // exhaustive part: every script of length <= exhaust_len x every single draw
+                let nd = draws.len() as u64;
+                let mut si = t as usize;
+                while si < scripts.len() {
+                    let s = &scripts[si];
+                    for (di, d) in draws.iter().enumerate() {
+                        // large gen_bytes on 65k scripts is wasteful; keep them for the short ones
+                        if s.len() == 2 && matches!(d, Draw::Bytes(n) if *n > 16) {
+                            continue;
+                        }
+                        run_case(SourceCase { entropy: Entropy::Bytes(s.clone()), draws: vec![d.clone()] }, si as u64 * nd + di as u64, &mut stats, &mut found);
+                    }
+                    si += nt as usize;
+                }
+                // sampled part: scripts of length 3..=16 at every cut, sequences of 1..6 draws; PRNG seeds
+                let base = scripts.len() as u64 * nd;
+                let mut i = t;
+                while i < sampled {
+                    let mut r = ChaCha8Rng::seed_from_u64(desc::derive_seed(seed, "C18.sampled", i));
+                    let n = r.random_range(1..=6);
+                    let ds: Vec<Draw> = (0..n).map(|_| draws[r.random_range(0..draws.len())].clone()).collect();
+                    if r.random_range(0..4) == 0 {
+                        run_case(SourceCase { entropy: Entropy::Rand(r.random()), draws: ds }, base + i * 32, &mut stats, &mut found);
+                        stats.bump("source.rand_cases");
+                    } else {
+                        let len = r.random_range(3..=16);
+                        let mut s = vec![0u8; len];
+                        match r.random_range(0..4) {
+                            0 => s.iter_mut().for_each(|b| *b = 0xff),
+                            1 => s.iter_mut().for_each(|b| *b = 0),
+                            _ => r.fill_bytes(&mut s),
+                        }
+                        for cut in 0..=len {
+                            run_case(SourceCase { entropy: Entropy::Bytes(s[..cut].to_vec()), draws: ds.clone() }, base + i * 32 + cut as u64, &mut stats, &mut found);
+                        }
+                        stats.bump("fault.cut.every_prefix_of_script(scripts)");
+                    }
+                    i += nt;
+                }
+                (stats, found)
+            }));
         }
+        hs.into_iter().map(|h| h.join().unwrap()).collect()
+    });
+    let mut stats = Stats::default();
+    let mut found = vec![];
+    for (s, f) in parts {
+        stats.merge(s);
+        found.extend(f);
     }
-    // sampled part: scripts of length 3..=16 with every cut, sequences of 1..6 draws; Rand seeds
-    for i in 0..sampled {
-        let mut r = ChaCha8Rng::seed_from_u64(desc::derive_seed(seed, "C18.sampled", i));
-        let n = r.random_range(1..=6);
-        let ds: Vec<Draw> = (0..n).map(|_| draws[r.random_range(0..draws.len())].clone()).collect();
-        if r.random_range(0..4) == 0 {
-            run_case(SourceCase { entropy: Entropy::Rand(r.random()), draws: ds }, &mut stats, &mut found, &mut idx);
-            stats.bump("source.rand_cases");
-        } else {
-            let len = r.random_range(3..=16);
-            let mut s = vec![0u8; len];
-            match r.random_range(0..4) {
-                0 => s.iter_mut().for_each(|b| *b = 0xff),
-                1 => s.iter_mut().for_each(|b| *b = 0),
-                _ => r.fill_bytes(&mut s),
-            }
-            // every cut of this script
-            for cut in 0..=len {
-                run_case(SourceCase { entropy: Entropy::Bytes(s[..cut].to_vec()), draws: ds.clone() }, &mut stats, &mut found, &mut idx);
-            }
-            stats.bump("fault.cut.every_prefix_of_script(scripts)");
-        }
-    }
-    stats.nontrivial = distinct;
+    found.sort_by_key(|f| f.index);
     CompOutcome { stats, found, exhaustive_upto: exhaust_len }
 }
 
